@@ -1,5 +1,5 @@
 #!/bin/sh
 # tools/tlc.sh <args>: TLC with the shared library (spec/lib) on the module path
 m=$(mktemp -d /tmp/tlcmeta.XXXXXX)
-java -XX:+UseParallelGC -Xmx8g -Djava.io.tmpdir="$m" -DTLA-Library=$(ls -d /verif/spec/*/ | tr "\n" ":") -cp /opt/veriftools/tla/tla2tools.jar:/opt/veriftools/tla/CommunityModules-deps.jar tlc2.TLC -metadir "$m" -noGenerateSpecTE "$@"
+java -XX:+UseParallelGC -Xss64m -Xmx8g -Djava.io.tmpdir="$m" -DTLA-Library=$(ls -d /verif/spec/*/ | tr "\n" ":") -cp /opt/veriftools/tla/tla2tools.jar:/opt/veriftools/tla/CommunityModules-deps.jar tlc2.TLC -metadir "$m" -noGenerateSpecTE "$@"
 rc=$?; rm -rf "$m"; exit $rc
